@@ -987,6 +987,11 @@ func (a *Analyzer) c11c12(st *Step, s *mSess, deletion bool) {
 			inc = m.inc + 1
 		}
 		s.urr[id] = &mURR{inc: inc, live: true, method: r.Method, mnop: r.MNOP, perio: r.Trig&1 != 0 && r.Period > 0, period: r.Period}
+		if a.refused[RuleKey{Kind: "URR", SEID: s.up, ID: uint64(id)}] {
+			// a URR of an earlier session that the data plane refused to remove still sits under this SEID and id: the
+			// create cannot have installed this one (its counters, reports and registrations are not followed)
+			s.urr[id].tainted = true
+		}
 		s.dpURR[id] = true
 	}
 	refs := func() map[uint32]int {
@@ -1001,6 +1006,15 @@ func (a *Analyzer) c11c12(st *Step, s *mSess, deletion bool) {
 	ambiguous := false
 	for _, r := range op.Create {
 		if r.Kind == "PDR" {
+			if a.refused[RuleKey{Kind: "PDR", SEID: s.up, ID: r.ID}] {
+				ambiguous = true // a leftover PDR the data plane refused to remove occupies the id
+				s.pdrAmb[r.ID] = true
+				for _, u := range r.URRs {
+					if m := s.urr[u]; m != nil {
+						m.tainted = true
+					}
+				}
+			}
 			if _, ex := s.pdrURR[r.ID]; ex {
 				ambiguous = true      // duplicate PDR create: outside C12's histories
 				s.pdrAmb[r.ID] = true // which of the two lists the UPF kept depends on which create the data plane refused
